@@ -83,6 +83,7 @@ class Elab:
         self.subs = sub_sigs          # name -> (param types, ret type)
         self.macros = macro_sigs      # name -> (param types, ret type)
         self.vsubs = {n: (k, ps) for n, k, ps in gen.VOID_CALLS}   # void sub-routines: name -> (pass-through parameters, value parameter types)
+        self.xsubs = dict(gen.XCALL_SIGS)   # value calls with pass-through arguments: name -> (number of them, value parameter types, return type)
         self.fresh = 0
 
     # ---------------------------------------------------------------- expressions
@@ -181,6 +182,12 @@ class Elab:
             raise Unmodelled("mem_load without an enclosing cast")
         if d == "macro_expr":
             name = tok(ch[0])
+            if name in gen.XMACROS:
+                n_ext, ret = gen.XMACROS[name]
+                args = [a for a in ch[1:] if a is not None]
+                if len(args) != n_ext:
+                    raise Unmodelled(f"macro {name} arity")
+                return ("xmacro", name, [self.ext_arg(name, a) for a in args], ret)
             if name not in self.macros:
                 raise Unmodelled(f"macro {name}")
             params, ret = self.macros[name]
@@ -199,6 +206,12 @@ class Elab:
                 return ("lit", f"sizeof({gen_src(a)})", (w + 7) // 8, (True, 32))
             if name in self.vsubs:
                 raise Unmodelled(f"void call of {name} used as a value")
+            if name in self.xsubs:
+                n_ext, params, ret = self.xsubs[name]
+                args = [a for a in ch[1:] if a is not None]
+                if len(args) != n_ext + len(params):
+                    raise Unmodelled(f"call {name} arity")
+                return ("callx", name, [self.ext_arg(name, a) for a in args[:n_ext]], [self.expr(a) for a in args[n_ext:]], ret)
             if name not in self.subs:
                 raise Unmodelled(f"call of {name}")
             params, ret = self.subs[name]
@@ -224,6 +237,15 @@ class Elab:
                 raise Unmodelled("load address other than EA")
             return ("load", spelling, t, sg, w)
         return None
+
+    def ext_arg(self, name, a):
+        """a pass-through argument: an identifier (`bundle`, `pkt`, `HEX_REG_FIELD_USR_LPCFG`) or a register operand
+        handed over by reference (`RxV`, `MuV`)"""
+        if is_tree(a) and a.data == "identifier" and len(a.children) == 1:
+            return tok(a.children[0])
+        if is_tree(a) and a.data == "reg" and len(a.children) == 2:
+            return f"{tok(a.children[0])}{tok(a.children[1])}V"
+        raise Unmodelled(f"call {name}: pass-through argument is not an identifier or a register operand")
 
     def void_call(self, n):
         """sub_routine node of a registered void sub-routine -> (name, pass-through tokens, value arguments)"""
@@ -323,6 +345,8 @@ class Elab:
 
     def block(self, n):
         """a statement used as a body: list of statements"""
+        if is_tree(n) and n.data == "compound_stmt" and not n.children:
+            return []      # `{ }`: printed back as an empty pair of braces by `gen.stmt_src`
         if is_tree(n) and n.data == "block_item_list":
             out = []
             for it in self.flatten_items(n):
